@@ -1683,3 +1683,35 @@ PROPS["C01"] = {
                     "determinism of the SDK, IAVL, wasmvm, the go-ethereum interpreter and the Go runtime is trusted",
                     "event order and tx logs are not part of the compared data (they are not hashed by consensus)"],
 }
+
+
+# ------------------------------------------------------------------------------------------------ C09 query isolation
+def oracle_c09(run, ops, impl):
+    out = []
+    for i, (op, ob) in enumerate(zip(ops, impl)):
+        kv = dict(x.split("=", 1) for x in op.split() if "=" in x)
+        if ob.startswith("panic"):
+            out.append(V("C09:panic:q=%s:yield=%s" % (kv.get("q"), kv.get("yield")), {"line": i + 1, "op": op}))
+        elif ob.startswith("DIFFERS"):
+            out.append(V("C09:query-changes-block-execution:q=%s:yield=%s" % (kv.get("q"), kv.get("yield")), {"line": i + 1, "op": op, "obs": ob}))
+    return out
+
+
+PROPS["C09"] = {
+    "modules": ["NibiruProofs.C09"],
+    "prefix": "C09_",
+    "runs": [{"model": "interleave", "n_quick": 120, "n_thorough": 1500, "thorough_seeds": 6, "no_model": True, "per_line": True,
+              "nontrivial": r"^(same|DIFFERS)"}],
+    "oracle": oracle_c09,
+    "rule": "each case executes the block's Ethereum tx (a contract that calls a yield precompile and makes the FunToken precompile "
+            "move NIBI through the bank) twice from the same committed state on the real keeper: alone, and with one query or "
+            "simulation run to completion at a chosen point — before the tx, inside it before the bank operation, inside it after the "
+            "bank operation, or the block's tx starting while a simulation is in flight; query kinds: plain bank read, eth_call of a "
+            "view function, EstimateGas, eth_call reaching a NIBI-moving precompile, simulated Ethereum tx, simulated "
+            "MsgConvertCoinToEvm; compared: the tx response and digests of ten module stores. The yield precompile is registered "
+            "through the public Keeper.AddPrecompiles (no repository change). non-trivial = both executions completed",
+    "assumptions": ["only the schedules 'Q runs to completion between two steps of T' (and the symmetric one) are replayed; the "
+                    "theorem quantifies over every interleaving of the model's steps",
+                    "the Go scheduler, the memory model and data races proper are outside the model (the race detector is not used)",
+                    "queries run on a branch of the last committed state (SDK behaviour)"],
+}
